@@ -2,6 +2,7 @@ import HcipyVerif.Model.PhaseOptics
 import HcipyVerif.Lemmas.Jones
 import HcipyVerif.Lemmas.PassiveOptics
 import HcipyVerif.Lemmas.PhaseOptics
+import HcipyVerif.Lemmas.NearFieldGRat
 import HcipyVerif.Gen.PhaseCoef
 import HcipyVerif.Gen.Stokes
 import Mathlib.Analysis.Complex.Exponential
@@ -472,5 +473,34 @@ theorem magnifier_model_weights_power (m1 m2 : ℚ) (h1 : m1 ≠ 0) (h2 : m2 ≠
 
 /-- The hypotheses are satisfiable (anamorphic magnification of mixed sign). -/
 example : (3 / 2 : ℚ) ≠ 0 ∧ (-2 : ℚ) ≠ 0 := by norm_num
+
+/-- **The knife-edge coronagraph exactly, for every internal length** (`Passive.knifeRowP`, driver op `knifep`: `knifeRow` run at the
+formal phase sums, compared row by row with `KnifeEdgeLyotCoronagraph.forward` / `backward` for internal lengths that do not divide 4
+as well).  The complex number its output denotes is the complex pipeline of `knife_model_passive` with the DFT kernels of C01/C02,
+applied to the numbers the inputs denote … -/
+theorem knifep_denotes_complex_row (N M start : ℕ) (mask apod lyot x : ℕ → Cx Rat) (j : ℕ) :
+    NearField.PSum.ev (knifeRowP N M start mask apod lyot x j)
+      = cxC (lyot j) * knifeRow N M start (NearField.kF M) (NearField.kB M) ((M : ℂ)⁻¹) (fun q => cxC (mask q))
+          (fun i => cxC (x i) * cxC (apod i)) j := by
+  unfold knifeRowP cxToPSum cxC
+  rw [NearField.PSum.ev_mul, knifeRow_map NearField.PSum.ev NearField.PSum.ev_zero NearField.PSum.ev_add NearField.PSum.ev_mul,
+    NearField.ev_scale, funext (NearField.ev_pKerF M), funext (NearField.ev_pKerB M)]
+  simp only [NearField.PSum.ev_mul, NearField.ev_psumOfGRat]
+
+/-- … hence what op `knifep` computes never carries more energy than the row that came in: any `M > 0`, any cut-out, focal mask,
+pre-apodizer and Lyot stop of modulus ≤ 1 (`backward`: the same with conjugated apodizer / stop in swapped roles). -/
+theorem knifep_passive (N M start : ℕ) (hM : 0 < M) (h : start + N ≤ M) (mask apod lyot x : ℕ → Cx Rat)
+    (hmask : ∀ q < M, ‖cxC (mask q)‖ ≤ 1) (hap : ∀ j < N, ‖cxC (apod j)‖ ≤ 1) (hly : ∀ j < N, ‖cxC (lyot j)‖ ≤ 1) :
+    ∑ j ∈ Finset.range N, ‖NearField.PSum.ev (knifeRowP N M start mask apod lyot x j)‖ ^ 2
+      ≤ ∑ j ∈ Finset.range N, ‖cxC (x j)‖ ^ 2 := by
+  simp only [knifep_denotes_complex_row]
+  exact knife_model_passive N M start hM h (fun q => cxC (mask q)) (fun j => cxC (apod j)) (fun j => cxC (lyot j))
+    (fun j => cxC (x j)) hmask hap hly
+
+/-- The hypotheses are satisfiable with an internal length that does not divide 4 (`M = 9`, the code's mask values 0, ½, 1). -/
+example : (0 : ℕ) < 9 ∧ 3 + 3 ≤ 9 ∧ ‖cxC ⟨1 / 2, 0⟩‖ ≤ 1 ∧ ‖cxC ⟨0, 0⟩‖ ≤ 1 ∧ ‖cxC ⟨1, 0⟩‖ ≤ 1 := by
+  have e : ∀ a : ℚ, cxC ⟨a, 0⟩ = ((a : ℝ) : ℂ) := fun a => by
+    unfold cxC NearField.GRat.toC; apply Complex.ext <;> simp
+  refine ⟨by norm_num, by norm_num, ?_, ?_, ?_⟩ <;> rw [e] <;> rw [Complex.norm_real] <;> norm_num
 
 end HcipyVerif.C07
